@@ -220,6 +220,29 @@ func c14run(set c14set, path, bodyKind string, oc c14outcome) (sig, what, outcom
 			okReg = true
 		}
 	}
+	// when two bindings yield the same path, the cluster holds the rules of one of them (the
+	// webhook configuration the manager would register): the request the API server sends for
+	// those rules is served by that binding
+	if okReg && len(registrants) > 1 {
+		id := strings.TrimPrefix(path, "/hooks/")
+		regName := ""
+		for _, res := range fx.op.AdmissionWebhookManager.ValidatingResources {
+			if c := res.Get(id); c != nil && c.ValidatingWebhook != nil {
+				regName = c.ValidatingWebhook.Name
+			}
+		}
+		for _, res := range fx.op.AdmissionWebhookManager.MutatingResources {
+			if c := res.Get(id); c != nil && c.MutatingWebhook != nil && regName == "" {
+				regName = c.MutatingWebhook.Name
+			}
+		}
+		if regName == "" {
+			return "C14 scenario", fmt.Sprintf("path %s has %d registrants but no webhook with id %q is held by the manager (validating resources %d, mutating %d)", path, len(registrants), id, len(fx.op.AdmissionWebhookManager.ValidatingResources), len(fx.op.AdmissionWebhookManager.MutatingResources)), ""
+		}
+		if regName != "" && run.Contexts[0]["binding"] != regName {
+			return "C14 served-by-another-binding-than-registered", fmt.Sprintf("path %s: the webhook configuration holds the rules of binding %q, the request was served by %v of %s", path, regName, run.Contexts[0]["binding"], run.Hook), ""
+		}
+	}
 	if !okReg {
 		return "C14 wrong-hook-or-binding", fmt.Sprintf("path %s registered by %v was handed to %s with contexts %s", path, registrants, run.Hook, run.Raw), ""
 	}
